@@ -122,7 +122,7 @@ class LFDA(MahalanobisMixin, TransformerMixin):
       dist = pairwise_distances(Xc, metric='l2', squared=True)
       # distances to k-th nearest neighbor
       k = min(k, nc - 1)
-      sigma = np.sqrt(np.partition(dist, k, axis=0)[:, k])
+      sigma = np.sqrt(np.partition(dist, k, axis=0)[k, :])
 
       local_scale = np.outer(sigma, sigma)
       with np.errstate(divide='ignore', invalid='ignore'):
